@@ -40,4 +40,7 @@ func main() {
 	for _, r := range res.Reports {
 		fmt.Printf("  %4dx %s\n", r.Count, r.Key)
 	}
+	for _, c := range res.Crashes {
+		fmt.Printf("  crash: %s: %s [%s %s]\n", c.Kind, c.Message, c.Frame[0], c.Frame[1])
+	}
 }
